@@ -39,7 +39,7 @@ Proof.
       rewrite ztake_0, Z.add_0_l. cbn [app]. rewrite SP. f_equal.
       rewrite <- Lt at 1. apply zdrop_app_exact.
     + assert (old = zlen data) by lia. subst old.
-      unfold bind at 1. unfold ret. rewrite seek_write. cbn [fst snd fdata]. split; [reflexivity|].
+      rewrite step_ret. rewrite seek_write. cbn [fst snd fdata]. split; [reflexivity|].
       rewrite write_at_inside by lia. rewrite ztake_0, Z.add_0_l. cbn [app]. rewrite SP. reflexivity.
 Qed.
 End Prog.
